@@ -255,6 +255,8 @@ pub enum Spec {
     Probe(usize),
     Script(usize),
     Tap(usize, Box<Spec>),
+    /// the inner view has already been given these values when whatever wraps it is constructed
+    Warm(Vec<f64>, Box<Spec>),
     Un(Kind, Box<Spec>),
     Bin(BinK, Box<Spec>, Box<Spec>),
     /// (kind, window, view, moving average)
@@ -281,7 +283,7 @@ impl Spec {
         match self {
             Spec::Bin(BinK::Add, _, _) => true,
             Spec::Bin(_, a, b) => a.contains_add() || b.contains_add(),
-            Spec::Un(_, a) | Spec::Tap(_, a) => a.contains_add(),
+            Spec::Un(_, a) | Spec::Tap(_, a) | Spec::Warm(_, a) => a.contains_add(),
             Spec::Ma(_, _, a, b) => a.contains_add() || b.contains_add(),
             _ => false,
         }
@@ -293,7 +295,7 @@ impl Spec {
             Spec::Constant(_) => "Constant".into(),
             Spec::Probe(_) => "Probe".into(),
             Spec::Script(_) => "Script".into(),
-            Spec::Tap(_, s) => s.top(),
+            Spec::Tap(_, s) | Spec::Warm(_, s) => s.top(),
             Spec::Un(k, _) => k.name().into(),
             Spec::Bin(k, _, _) => format!("{:?}", k),
             Spec::Ma(MaK::Pfe, ..) => "PolarizedFractalEfficiency".into(),
@@ -307,6 +309,7 @@ impl Spec {
             Spec::Probe(i) => format!("Probe#{}", i),
             Spec::Script(i) => format!("Script#{}", i),
             Spec::Tap(_, s) => s.show(),
+            Spec::Warm(w, s) => format!("{} already given {} values", s.show(), w.len()),
             Spec::Un(k, s) => format!("{}<{}>", k.show(), s.show()),
             Spec::Bin(k, a, b) => format!("{:?}<{}, {}>", k, a.show(), b.show()),
             Spec::Ma(k, n, v, m) => format!("{:?}({})<{}, ma={}>", k, n, v.show(), m.show()),
@@ -418,6 +421,13 @@ pub fn build<T: Scalar>(spec: &Spec, env: &mut Env<T>) -> Dyn<T> {
         Spec::Script(i) => {
             let (outs, fed) = env.scripts[*i].clone();
             bx(Script { outs, fed, pos: 0 })
+        }
+        Spec::Warm(w, s) => {
+            let mut inner = build(s, env);
+            for x in w {
+                inner.update(t(*x));
+            }
+            inner
         }
         Spec::Tap(i, s) => {
             let inner = build(s, env);
